@@ -92,6 +92,16 @@ def run(ctx):
                         except (TypeError, ValueError):
                             continue
                         yield ("c04", dict(base, route="kw", P=None, kwargs=kw, _k="kw:%d:%s:%s" % (li, pat, P0.hex()[:40])))
+        # payloads around the 16-bit length limit: construction must be refused or the frame must be well-formed
+        inf = [l for l in lays if l["name"] in ("INF-NOTICE", "RXM-PMP-V1", "MON-VER") and l["c"] == 1][:3]
+        for l in inf:
+            nm = names_for(defs, l["cls"], l["id"], l["bfix"])
+            for n in (65534, 65535, 65536, 65537, 70000) if ctx.thorough else (65535, 65536, 66000):
+                yield ("c04", {"m": l["m"], "cls": l["cls"], "id": l["id"], "name": l["name"], "names": nm, "route": "payload",
+                               "P": rng.randbytes(n).hex(), "kwargs": None, "_k": "big:%s:%d" % (l["name"], n)})
+        for n in (65535, 65536, 70000):
+            yield ("c04", {"m": 0, "cls": 4, "id": 2, "name": "INF-NOTICE", "names": ["INF", "INF-NOTICE"], "route": "kw", "P": None,
+                           "kwargs": {"message": "x" * n}, "_k": "bigkw:%d" % n})
         # configuration helpers
         for n in (0, 1, 2, 5, 63, 64):
             for byname in (True, False):
